@@ -109,11 +109,16 @@ __CPROVER_ensures(RET == g_last_error)
 #define AL_BYTES(l) ((uint8_t *)(l)->data)
 #define AL_FITS_P(len, cur) ((len) <= SIZE_MAX / ISZ && (len) * ISZ <= (cur))
 #define AL_FITS_Q(len, cur) ((len) <= (cur) / ISZ)
+#ifdef VERIF_AL_P_ONLY /* sizes for which unit inv_forms is not run (127: SAT does not finish): product form alone */
+#    define AL_FITS_PRE(len, cur) AL_FITS_P(len, cur)
+#else
+#    define AL_FITS_PRE(len, cur) (AL_FITS_P(len, cur) && AL_FITS_Q(len, cur))
+#endif
 #define AL_STORAGE_OK(l) ((l)->current_size == 0 ? (l)->data == NULL : __CPROVER_is_fresh((l)->data, (l)->current_size))
 #define AL_REQ_OK(l)                                                                                                   \
     __CPROVER_requires(__CPROVER_is_fresh((l), sizeof(*(l))))                                                          \
     __CPROVER_requires((l)->item_size == ISZ)                                                                          \
-    __CPROVER_requires(AL_FITS_P((l)->length, (l)->current_size) && AL_FITS_Q((l)->length, (l)->current_size))        \
+    __CPROVER_requires(AL_FITS_PRE((l)->length, (l)->current_size))                                                    \
     __CPROVER_requires(AL_STORAGE_OK(l))
 /* post-state representation invariant (storage validity is given by the frame / by is_fresh where it is replaced) */
 #define AL_INV_COMMON(l) ((l)->item_size == ISZ && (((l)->current_size == 0) == ((l)->data == NULL)))
